@@ -58,7 +58,7 @@ func (c *Ctx) flowsContainerRule(e *Eff) {
 				"neither Encode nor Decode (nor anything they call) reads FrameInfo.BitsAllocated: the decoded sample container is chosen from the precision (BitsStored) alone, so a frame with BitsAllocated=16 and BitsStored<=8 is decoded to 1-byte samples instead of Rows*Columns*SamplesPerPixel*2 bytes")
 		}
 	}
-	c.C.Floor("FLOWS-CONTAINER", n-c.controlCount("FLOWS-CONTAINER"), 10)
+	c.C.Floor("FLOWS-CONTAINER", n-c.controlCount("FLOWS-CONTAINER"), 6)
 	c.C.ExpectControl("FLOWS-CONTAINER")
 }
 
